@@ -24,7 +24,7 @@ RULE = ("explicit-state search: states = contents of two real HDF5 files X, Y (c
         "is_cooler is False WITHOUT raising for every other path of the alphabet, a data set path, a missing path, a missing file; "
         "foreign objects and attributes untouched; an operation on a missing source (no overwrite) touches nothing that existed. "
         "Non-trivial: a transition from a state holding >=1 collection. Distinct by construction (state dedup).")
-EXTRA_LEGS = "two more initial states at depth 1 (thorough 2): 'mcool' (root tagged HDF5::MCOOL, /resolutions/2 and /resolutions/4, free paths /a and /0) and the seeded state over the paths {/, /resolutions/2, /resolutions/4, /a}."
+EXTRA_LEGS = "two more initial states at depth 1 (thorough 2): 'mcool' (root tagged HDF5::MCOOL, /resolutions/2 and /resolutions/4, free paths /a and /0) and the seeded state over the paths {/, /resolutions/2, /resolutions/4, /a}." + ' the reference model defines the cross-file copy into the root of an existing file that holds no root collection; the mcool state has a second file with a root collection.'
 BOUNDS = {"quick": "depth 2 from the empty and the seeded initial state; depth 1 over a 5-path alphabet from the linked initial state (soft + hard link to a collection) and from the mcool initial state (file tagged and laid out as a multi-resolution file, free paths /a and /0) and from the seeded state over the paths {/, /resolutions/2, /resolutions/4, /a}; every cp / cp -w / mv / ln / ln -s operation of the alphabet is also run once through the command line from the seeded and the linked state (depth 1; depth 2 from the linked state in the thorough tier), with `cooler ls` and `cooler ls -l` compared with the listing in every state reached",
           "thorough": "depth 3 from the empty state (third step restricted to operations on file X, operations on a missing source up to depth 2), depth 2 from the seeded, the linked and the mcool state; every cp / cp -w / mv / ln / ln -s operation of the alphabet is also run once through the command line from the seeded and the linked state (depth 1; depth 2 from the linked state in the thorough tier), with `cooler ls` and `cooler ls -l` compared with the listing in every state reached"}
 ASSUMPTIONS = ["excluded from the alphabet (no defined meaning): mv / hard ln whose source is the root group, any operation whose destination "
